@@ -994,8 +994,8 @@ func c22GenMsg(rt *rapid.T, topic kstr, pid uint16, big bool) *c22Msg {
 
 func c22Gen(rt *rapid.T) c22Case {
 	var c c22Case
-	long := rapid.IntRange(0, 29).Draw(rt, "longclass") == 17
-	big := rapid.IntRange(0, 59).Draw(rt, "bigclass") == 31 // rapid favours the ends of a range; a middle value keeps the class rare
+	long := rapid.IntRange(0, 15).Draw(rt, "longclass") == 9 // rapid favours the ends of a range; a middle value keeps the class rare
+	big := rapid.IntRange(0, 59).Draw(rt, "bigclass") == 31  // rapid favours the ends of a range; a middle value keeps the class rare
 	reopen := rapid.IntRange(0, 11).Draw(rt, "reopenclass") == 0
 	// collision class: ids "a:b" and "a" with filters "c" and "b:c" share the subscription key "a:b:c"
 	coll := !long && rapid.IntRange(0, 5).Draw(rt, "collisionclass") == 0
